@@ -924,8 +924,9 @@ pub fn generate(prop: &str, thorough: bool, rng: &mut Rng, emit: &mut Emit) {
                         "https://[::1]:443/p", "https://127.0.0.1:8443/?q", "https://user:pw@host.example/p%20q?a=b#frag",
                         "http://example.org/", "wss://example.org/", "https://", "not a url", "https://exa mple.org/",
                         "https://EXAMPLE.org:443/UP", "https://example.org/?", "https://example.org/#f"];
-            let names = [":method", ":scheme", ":protocol", ":authority", ":path", ":status", ":Method", "method",
-                         ":methods", " :path", "origin", "user-agent", ":path ", "x"];
+            let names = [":Path", ":AUTHORITY", ":Scheme", ":PROTOCOL", ":PaTh",
+                         ":method", ":scheme", ":protocol", ":authority", ":path", ":status", ":Method", "method",
+                         ":methods", " :path", "origin", "user-agent", ":path ", "x", "X-Mixed-Case"];
             for u in urls {
                 emit("req.new", vec![hex(u.as_bytes()), s("-")]);
                 for n in names {
